@@ -144,6 +144,79 @@ def comparator_reads(db, spec):
     return want <= got, sorted(want - got)
 
 
+MUTATORS = {'push_back', 'emplace_back', 'insert', 'emplace', 'clear', 'resize', 'pop_back', 'erase', 'swap'}
+
+
+def rule_tasks(chk, db, cfgname):
+    chk.rule('C04.2', 'a tbb::task_group task writes shared (by-reference captured) state only through a slot indexed '
+             'by a by-value capture (results[i] = ..., map[key] = ...): it appends to no shared sequence and advances '
+             'no shared counter, so nothing it publishes depends on the order in which tasks finish')
+    n = 0
+    for f in db.functions.values():
+        if not f.get('blocks'):
+            continue
+        for b in f['blocks']:
+            for ev in b['ev']:
+                if not (ev.get('k') == 'call' and T.short(ev.get('fn', '')) == 'run' and
+                        'task_group' in (ev.get('mcls') or '')):
+                    continue
+                lams = [x for x in T.walk(ev) if isinstance(x, dict) and x.get('k') == 'lambda' and
+                        x.get('fk') in db.functions]
+                for lam in lams[:1]:
+                    n += 1
+                    byval = {c['n'] for c in lam.get('caps', []) if not c.get('ref')}
+                    byref = {c['n'] for c in lam.get('caps', []) if c.get('ref')}
+                    body = db.functions[lam['fk']]
+                    bad = []
+                    for bb in body['blocks']:
+                        for e in bb['ev']:
+                            lhs = None
+                            what = None
+                            if e.get('k') == 'bin' and e.get('op', '').endswith('=') and \
+                                    e['op'] not in ('==', '!=', '<=', '>='):
+                                lhs, what = e['l'], 'assignment'
+                            elif e.get('k') == 'call' and e.get('op', '').endswith('=') and \
+                                    e['op'] not in ('==', '!=', '<=', '>=') and e.get('recv') is not None:
+                                lhs, what = e['recv'], 'assignment'
+                            elif e.get('k') == 'un' and e.get('op') in ('++', '--'):
+                                lhs, what = e['e'], 'counter update'
+                            elif e.get('k') == 'call' and e.get('recv') is not None and \
+                                    T.short(e.get('fn', '')) in MUTATORS and not (e.get('mcls') or '').startswith('tbb::'):
+                                lhs, what = e['recv'], T.short(e['fn']) + '()'
+                            if lhs is None:
+                                continue
+                            root = T.root_of(T.strip_copy(lhs))
+                            if root is None or root.get('k') != 'var' or root.get('n') not in byref:
+                                continue
+                            t = db.T(body, root)
+                            if 'atomic' in (t.get('c') or t.get('s') or ''):
+                                continue          # atomics are S1 sources with their own disposition
+                            # slot write: a subscript on the path whose index is a by-value capture
+                            slot = False
+                            for x in T.walk(T.strip_copy(lhs)):
+                                if not isinstance(x, dict):
+                                    continue
+                                idx = None
+                                if x.get('k') == 'sub':
+                                    idx = x.get('idx')
+                                elif x.get('k') == 'call' and x.get('op') == '[]' and x.get('args'):
+                                    idx = x['args'][0]
+                                if idx is not None:
+                                    i0 = T.strip_copy(idx)
+                                    if i0.get('k') == 'var' and i0['n'] in byval:
+                                        slot = True
+                            if what != 'assignment' or not slot:
+                                bad.append((T.pstr(e)[:60], e.get('ln'), what))
+                    chk.obligation(not bad, {'function': f['name'][:70], 'line': ev.get('ln'),
+                                             'by-value captures': sorted(byval), 'unslotted shared writes': bad[:3]})
+                    for txt, ln, what in bad[:3]:
+                        chk.violation('C04.2', f, 'task %s of shared state: %s' % (what, txt[:40]),
+                                      'a task_group task performs %s on state captured by reference (%s) that is not '
+                                      'a slot indexed by a by-value capture: what it publishes depends on the order '
+                                      'in which tasks complete' % (what, txt), line=ln, cfg=cfgname)
+    chk.count('c04.2.tasks', n)
+
+
 def main(chk, tier):
     import db as D
     configs = ['par'] if tier == 'quick' else ['par', 'par-debug']
@@ -200,6 +273,7 @@ def main(chk, tier):
                               cfg=cfgname)
             else:
                 raise AnalysisBroken('C04: bad disposition %s' % d)
+        rule_tasks(chk, db, cfgname)
         # table entries that no longer match a source: the table is stale (not a pass)
         for key, e in entries.items():
             if key not in seen and not e.get('optional'):
@@ -207,6 +281,7 @@ def main(chk, tier):
                                      % (list(key), cfgname))
     n = len(configs)
     chk.floor('c04.1.sources', 30 * n)
+    chk.floor('c04.2.tasks', 2 * n)
     return chk.finish(
         'Shape-based enumeration of every schedule-dependent construct in the MANIFOLD_PAR=1 translation units and a '
         'per-source disposition check against a reviewed table: normalisers are verified to exist (and their '
